@@ -97,8 +97,8 @@ PROPS = {
         title="reim/cplx FFT and iFFT equal the mathematical transform, in documented order",
         module="SpqProofs.Properties.C06",
         extra_modules=["SpqProofs.Properties.Numerics", "SpqProofs.Properties.C06Err"],
-        streams=dict(quick=[("ff_fft", "plain"), ("ff_cfft", "plain"), ("ff_crafted", "plain"), ("ff_ccrafted", "plain"), ("ff_tables", "plain")],
-                     thorough=[("ff_fft", "plain"), ("ff_cfft", "plain"), ("ff_crafted", "plain"), ("ff_ccrafted", "plain"), ("ff_tables", "plain")]),
+        streams=dict(quick=[("ff_fft", "plain"), ("ff_cfft", "plain"), ("ff_crafted", "plain"), ("ff_ccrafted", "plain"), ("ff_tables", "plain"), ("cv_naive", "plain")],
+                     thorough=[("ff_fft", "plain"), ("ff_cfft", "plain"), ("ff_crafted", "plain"), ("ff_ccrafted", "plain"), ("ff_tables", "plain"), ("cv_naive", "plain")]),
         proved="exact arithmetic, every m = 2^k (all k), reim and cplx layouts, reference and FMA/assembly schedules alike (the same network code as the bit-exact model, instantiated with a commutative ring with I^2=-1, zeta^m=I and the exact table = transcription of the fill_* functions): forward output j = evaluation of the input polynomial at zeta^(1+4*bitrev_k(j)); the inverse applied to exact evaluations returns m times the coefficients; ifft o fft = m.id for any pairing of implementations",
         not_proved="rounding bound: PROVED (C06Err) for all four binary64 drivers - reim and cplx layout, forward and inverse, reference and FMA/assembly schedules, every m = 2^k: sum |out_j - exact_j|^2 <= ((1+8u)^k - 1)^2 sum |exact_j|^2, and <= (8 log2(2m) u)^2 for m <= 65536, under two explicit hypotheses: stored twiddles within 3.5*2^-53 of the exact roots (libm cos/sin accuracy is measured on every run, <= 3.11*2^-53 on all 571288 entries, not proved) and no overflow / inexact underflow in any intermediate operation (flags of the flagged run; the statement is false in the underflow range, stream class 'tiny'); the hand-written assembly is tied by bit-exact streams only; read-only tables: covered by C18/C15",
         level_text="Lean 4 theorems for the exact-arithmetic FFT/iFFT network of every size and both layouts, and the binary64 rounding bound of the property for the reim and cplx forward and inverse transforms; bit-exact differential streams against reference C, AVX2/FMA C and the assembly leaves for every m = 1..65536 with a __float128 evaluation oracle and the property's 2-norm bound; real drivers also run on crafted small-dyadic tables (signed-zero sensitivity); all table entries checked against quad-precision cos/sin",
@@ -107,9 +107,10 @@ PROPS = {
     "C07": dict(
         title="Accelerated kernels compute the same function as their reference kernels",
         module="SpqProofs.Properties.C07",
+        extra_modules=["SpqProofs.Properties.Cover"],
         gen=["dispatch"],
-        streams=dict(quick=[("vz_box", "plain"), ("r4_layout", "plain"), ("r4_arith", "plain"), ("q1_prod", "plain"), ("ff_fft", "plain"), ("md_model", "plain"), ("md_prod", "plain"), ("md_vmp", "plain")],
-                     thorough=[("vz_box", "plain"), ("r4_layout", "plain"), ("r4_arith", "plain"), ("q1_prod", "plain"), ("ff_fft", "plain"), ("md_model", "plain"), ("md_prod", "plain"), ("md_vmp", "plain")]),
+        streams=dict(quick=[("vz_box", "plain"), ("r4_layout", "plain"), ("r4_arith", "plain"), ("q1_prod", "plain"), ("ff_fft", "plain"), ("md_model", "plain"), ("md_prod", "plain"), ("md_vmp", "plain"), ("cv_rnx", "plain"), ("cv_cplxvec", "plain")],
+                     thorough=[("vz_box", "plain"), ("r4_layout", "plain"), ("r4_arith", "plain"), ("q1_prod", "plain"), ("ff_fft", "plain"), ("md_model", "plain"), ("md_prod", "plain"), ("md_vmp", "plain"), ("cv_rnx", "plain"), ("cv_cplxvec", "plain")]),
         proved="Gen obligation: every kernel the live library installs (every constructor and module-table entry, 5 CPU masks, m = 2^0..2^16) belongs to its listed equivalence class; integer AVX loops = reference for every power-of-two dimension; family theorems imported: reim4/reim/cplx products ref = avx2/fma/sse/avx512 in exact arithmetic and layout kernels equal (C17), q120 AVX2 = reference word for word (C10/C04)",
         not_proved="float kernels of different variants differ by rounding: each variant is tied bit-exactly to its own model and to the exact-arithmetic definition, not to each other; AVX-512 FFT (cplx_fft_avx512) is not reached by any constructor on this dispatch table and is not modelled",
         level_text="kernel-decided dispatch-closure obligation on the table read back from the live library + Lean equivalence theorems per kernel family + pairwise bit-exact correspondence under both dispatch masks",
@@ -142,8 +143,8 @@ PROPS = {
         module="SpqProofs.Properties.C10",
         variants={"plain": None},
         gen=["q120"],   # tools/gen_q120.py: lean/Gen/Q120Consts.lean + lean/Gen/ProdPrecomp.lean
-        streams=dict(quick=[("q1_prod", "plain"), ("q1_conv", "plain")],
-                     thorough=[("q1_prod", "plain"), ("q1_conv", "plain")]),
+        streams=dict(quick=[("q1_prod", "plain"), ("q1_conv", "plain"), ("cv_q120old", "plain")],
+                     thorough=[("q1_prod", "plain"), ("q1_conv", "plain"), ("cv_q120old", "plain")]),
         proved="for the constants extracted from the code this run (primes, CRT constants, MAX_ELL, live product precomputations): "
                "every q120 product kernel (a*a, b*b, b*c, x2 one/two columns; reference and AVX2) returns lanes congruent to the exact dot "
                "product modulo each prime for all ell <= MAX_ELL and all operands of the layout (b: any 64-bit lane), with no 64-bit wrap and no "
@@ -161,8 +162,8 @@ PROPS = {
         module="SpqProofs.Properties.C11",
         gen=["tmpbytes"],
         variants={"plain": None, "asan": None},
-        streams=dict(quick=[("mem_pairs", "asan"), ("vz_box", "asan"), ("vz_norm", "asan"), ("kz_probe", "asan"), ("kz_norm", "asan"), ("ca_prog", "asan"), ("md_prod", "asan"), ("md_vmp", "asan"), ("md_ntt", "asan")],
-                     thorough=[("mem_pairs", "asan"), ("vz_box", "asan"), ("vz_norm", "asan"), ("kz_probe", "asan"), ("kz_norm", "asan"), ("ca_prog", "asan"), ("md_prod", "asan"), ("md_vmp", "asan"), ("md_ntt", "asan")]),
+        streams=dict(quick=[("mem_pairs", "asan"), ("vz_box", "asan"), ("vz_norm", "asan"), ("kz_probe", "asan"), ("kz_norm", "asan"), ("ca_prog", "asan"), ("md_prod", "asan"), ("md_vmp", "asan"), ("md_ntt", "asan"), ("cv_misc", "asan"), ("cv_rnx", "asan"), ("cv_cplxvec", "asan")],
+                     thorough=[("mem_pairs", "asan"), ("vz_box", "asan"), ("vz_norm", "asan"), ("kz_probe", "asan"), ("kz_norm", "asan"), ("ca_prog", "asan"), ("md_prod", "asan"), ("md_vmp", "asan"), ("md_ntt", "asan"), ("cv_misc", "asan"), ("cv_rnx", "asan"), ("cv_cplxvec", "asan")]),
         proved="index logic of every limb-vector operation: declared extents inside the heap imply no out-of-bounds access of the model (all shapes incl. zero limb counts), frame theorems (C18) bound the writes, scratch of the normalisation = one carry limb = *_tmp_bytes; Gen obligation: size formulas = live *_tmp_bytes / bytes_of_* values",
         not_proved="runtime residue observed by ASan/UBSan-bounds/LSan on exactly-sized heap buffers, not proved: accesses inside float kernels and asm leaves, alloc/free pairing of new_*/delete_*, alignment, allocator overflow abort; DFT/SVP/VMP entry points are covered by the sanitizer streams only until the module-level model lands",
         level_text="Lean 4 theorems for the index logic (bounds flag, frame, scratch size) + kernel-decided size-formula obligation on live values; the memory-safety residue is tied by sanitizer builds on exact-size buffers (partial)",
@@ -187,8 +188,9 @@ PROPS = {
         level_text="Lean 4 theorems on the bit-exact soft-float model (verified pack/decode theory: RNE, exactness, magic-constant additions, rint, quotient by 2^j) for every conversion and variant, all m, including the repaired wide double->int64 kernel (D7) on |x/d| < 2^52 and its exactness up to 2^63; bit-exact correspondence at and around every domain boundary",
         design_ref="DESIGN.md §5 C14",
         module="SpqProofs.Properties.C14",
+        extra_modules=["SpqProofs.Properties.Cover"],
         variants={"plain": None},
-        streams=dict(quick=[("f6_conv", "plain")], thorough=[("f6_conv", "plain")]),
+        streams=dict(quick=[("f6_conv", "plain"), ("cv_conv32", "plain")], thorough=[("f6_conv", "plain"), ("cv_conv32", "plain")]),
         proved="on the bit-exact soft-float model, for every m (through the loop / shuffle structure of each kernel), every divisor 2^j with finite table constants and every input pattern in the stated magnitude domain: from_znx64 exact (cast and add-2^51/or/sub trick, |x|<2^50); to_znx64 ref (|x/d|<2^63) and bnd50 (|x/d|<2^50) within 1/2 of x/d; cplx_from_znx32 / cplx_from_tnx32 exact for every int32 (ref and AVX2 shuffle kernel); cplx_to_tnx32 ref and AVX2 = round(x*2^32/d) mod 2^32 for |x/d|<2^18; reim_to_tnx ref = avx bit-for-bit and x/d - integer within 2^(L-51), result in [-1/2,1/2), for every log2overhead L<=48 with the table recomputed by the model of the constructor; a kernel-checked counterexample showing the wide variant bnd63 misses the 1/2 bound at x = pred(d/2)",
         not_proved="to_znx64 bnd63 beyond the counterexample (its mantissa-shift extraction is tied by the stream only); reim_to_tnx_basic_ref (rint form) is tied by the stream only; non-finite inputs and log2overhead 49..52 are outside the property",
         assumptions=COMMON_ASSUME + ["divisor/2., 1./divisor and 2^32/divisor are compiled as IEEE divisions or exact multiplications (bit-identical for powers of two)"],
